@@ -92,6 +92,8 @@ def gen_layout_schema(r, prefix="L"):
                     opts.append(("mux_signal", ("s", r.choice(sdecl[st]["fields"])["name"])))
                 if r.random() < 0.3 or not opts:
                     opts.append(("scale", r.choice([0.5, 2, 10.0])))
+                if r.random() < 0.2:
+                    opts.append(("bitstart", r.choice([0, 3, 8, 60, 64, 100])))  # documented key; it does not move the leaf
                 items.append(("signal", f["name"], opts))
         r.shuffle(items)
         decls.append({"kind": "impl", "protocol": proto, "type": st, "name": rename, "items": items})
@@ -170,7 +172,8 @@ def gen_can_schema(r, prefix="C", max_bindings=6, flat=False, buses=True, big_en
     enums = []
     enum_w = {}
     for i in range(r.randint(0, 3)):
-        n = "%sEn%d" % (prefix, i)
+        # some enum names begin with 'i' / 'u': an enum is unsigned whatever it is called
+        n = r.choice(["%sEn%d", "%sEn%d", "i%sEn%d", "u%sEn%d", "input%sEn%d"]) % (prefix, i)
         d = mk_enum(n, r.choice(enum_maxes or ENUM_MAXES), r)
         decls.append(d)
         enums.append(n)
@@ -186,7 +189,9 @@ def gen_can_schema(r, prefix="C", max_bindings=6, flat=False, buses=True, big_en
             structs.append(n)
             struct_w[n] = w
     nb = r.randint(1, max_bindings)
-    ids = r.sample(range(0, 1024), nb)
+    ids = r.sample(range(1, 1024), nb)
+    if r.random() < 0.25:
+        ids[r.randrange(nb)] = 0  # frame id 0 is a valid (and falsy) id
     extra_ids = []
     bus_names = r.sample(["can0", "can1", "pt", "b", "x1"], r.randint(1, 3))
     dev_names = r.sample(["ecu", "bms", "inv", "dash"], r.randint(1, 3))
